@@ -1058,6 +1058,13 @@ class Engine(object):
         self.solver.push()
         self.solver.add(extra)
         r = self.solver.check()
+        if r == z3.unknown:
+            # timeouts are wall-clock: retry once with six times the budget before calling the query inconclusive
+            base = int(self.opts.get("query_timeout_ms", 20000))
+            self.solver.set("timeout", base * 6)
+            r = self.solver.check()
+            self.solver.set("timeout", base)
+            self.n_retried = getattr(self, "n_retried", 0) + 1
         m = None
         if r == z3.sat:
             m = self.solver.model()
